@@ -65,6 +65,12 @@ def types_from_facts(facts, var: str) -> Optional[set[str]]:
     return out
 
 
+def _atom_facts(cond: ast.AST):
+    from .cfg import atom_facts
+
+    return atom_facts(cond, True)
+
+
 class Nav:
     def __init__(self, prog: Prog, max_depth: int = 8):
         self.prog = prog
@@ -109,24 +115,64 @@ class Nav:
                 src = node.value
             elif kind in ("for", "comp"):
                 src = node.iter
-            if isinstance(src, ast.Call) and isinstance(src.func, ast.Name) and src.func.id in ("next", "list", "iter", "reversed", "enumerate") and src.args:
-                src = src.args[0]
-            if isinstance(src, ast.Call) and isinstance(src.func, ast.Attribute) and src.func.attr in NAV_METHODS and isinstance(src.func.value, ast.Name):
-                for rp in self.var_paths(fn, src.func.value.id, node, params, _depth + 1):
-                    for t in self._str_args(src, fn):
-                        if ft is None or t in ft:
-                            out.add(rp + (t,))
-            elif isinstance(src, ast.Attribute) and src.attr == "segments" and isinstance(src.value, ast.Name) and ft:
-                for rp in self.var_paths(fn, src.value.id, node, params, _depth + 1):
-                    for t in ft:
-                        out.add(rp + (t,))
-            elif isinstance(src, ast.Call) and isinstance(src.func, ast.Name) and src.func.id == "list_child_segments" and src.args and isinstance(src.args[0], ast.Name) and ft:
-                for rp in self.var_paths(fn, src.args[0].id, node, params, _depth + 1):
-                    for t in ft:
-                        out.add(rp + (t,))
-            elif isinstance(src, ast.Name):
-                out |= self.var_paths(fn, src.id, node, params, _depth + 1)
+            if src is not None:
+                out |= self.expr_paths(fn, src, node, params, ft, _depth)
         return {p for p in out if len(p) <= self.max_depth}
+
+    def expr_paths(self, fn: Fn, src: ast.AST, at: ast.AST, params: dict[str, frozenset], ft: Optional[set], _depth: int) -> set[Path]:
+        """Type paths of the segment(s) the expression `src` evaluates to (an element of it, for sequences)."""
+        prog = self.prog
+        out: set[Path] = set()
+        if _depth > 6:
+            return out
+        if isinstance(src, ast.IfExp):
+            return self.expr_paths(fn, src.body, at, params, ft, _depth + 1) | self.expr_paths(fn, src.orelse, at, params, ft, _depth + 1)
+        if isinstance(src, ast.NamedExpr):
+            return self.expr_paths(fn, src.value, at, params, ft, _depth + 1)
+        if isinstance(src, ast.Call) and isinstance(src.func, ast.Name) and src.func.id in ("next", "list", "iter", "reversed", "enumerate") and src.args:
+            src = src.args[0]
+        if isinstance(src, (ast.ListComp, ast.GeneratorExp)) and len(src.generators) == 1 and isinstance(src.elt, ast.Name) and isinstance(src.generators[0].target, ast.Name) \
+                and src.elt.id == src.generators[0].target.id:
+            g = src.generators[0]
+            gft = types_from_facts({f for c in g.ifs for f in _atom_facts(c)}, src.elt.id)
+            return self.expr_paths(fn, g.iter, at, params, gft if gft is not None else ft, _depth + 1)
+        if isinstance(src, ast.Call) and isinstance(src.func, ast.Attribute) and src.func.attr in NAV_METHODS and isinstance(src.func.value, ast.Name):
+            for rp in self.var_paths(fn, src.func.value.id, at, params, _depth + 1):
+                for t in self._str_args(src, fn):
+                    if ft is None or t in ft:
+                        out.add(rp + (t,))
+        elif isinstance(src, ast.Attribute) and src.attr == "segments" and isinstance(src.value, ast.Name) and ft:
+            for rp in self.var_paths(fn, src.value.id, at, params, _depth + 1):
+                for t in ft:
+                    out.add(rp + (t,))
+        elif isinstance(src, ast.Call) and isinstance(src.func, ast.Name) and src.func.id == "list_child_segments" and src.args and isinstance(src.args[0], ast.Name) and ft:
+            for rp in self.var_paths(fn, src.args[0].id, at, params, _depth + 1):
+                for t in ft:
+                    out.add(rp + (t,))
+        elif isinstance(src, ast.Name):
+            out |= self.var_paths(fn, src.id, at, params, _depth + 1)
+        elif isinstance(src, ast.Call):
+            # a repository function handing back segments it navigated to from its arguments
+            for cal in prog.resolve_call(src, fn):
+                if not isinstance(cal, Fn) or cal.name == "__init__" or not cal.mod.name.startswith("sqllineage.core.parser.sqlfluff"):
+                    continue
+                ps = cal.params()
+                if cal.cls is not None and cal.kind in ("method", "classmethod") and ps and ps[0] in ("self", "cls"):
+                    ps = ps[1:]
+                passed: dict[str, frozenset] = {}
+                for i, a in enumerate(src.args):
+                    if i < len(ps) and isinstance(a, ast.Name):
+                        vp = self.var_paths(fn, a.id, at, params, _depth + 1)
+                        if vp:
+                            passed[ps[i]] = frozenset(vp)
+                if not passed:
+                    continue
+                for r in prog.walk_fn(cal):
+                    if isinstance(r, ast.Return) and r.value is not None:
+                        for rp in self.expr_paths(cal, r.value, r, passed, None, _depth + 2):
+                            if ft is None or (rp and rp[-1] in ft):
+                                out.add(rp)
+        return out
 
     def analyse(self, fn: Fn, params: dict[str, frozenset]) -> None:
         prog = self.prog
